@@ -25,3 +25,7 @@ def run(ctx):
     truncation(ctx)
     expr_nopanic(ctx)
     arithmetic(ctx, which=['reminder', 'divide', 'add'] if ctx.quick else None, all_variants=True)
+    from ..scen_sorter import sorter
+    from ..scen_limiter import limiter
+    sorter(ctx, want_order=False, want_topn=True)      # panic paths of the buffering stages (capacity 0 included)
+    limiter(ctx, {'nopanic', 'step'})
